@@ -37,6 +37,63 @@ for var, rel, after, before in SLOTS:
         results.append(dict(name=name, kind="static", status="undecided", detail="static check crashed: %r" % (e,)))
 
 
+# ---- static obligation on the real source of executor._write_cpp_files: every template slot is fed from the accessor of the same name ----
+# (the accessors themselves are under deductive contract: each returns its own field of the blocks, concatenated in block order)
+import ast as _ast
+REPO = os.environ.get("PYVC_REPO", "/repo")
+try:
+    _src = open(os.path.join(REPO, "func_adl_xAOD/common/executor.py"), encoding="utf-8").read()
+    _fn = [n for n in _ast.walk(_ast.parse(_src)) if isinstance(n, _ast.FunctionDef) and n.name == "_write_cpp_files"]
+    _direct = ["header_include_files", "private_members", "instance_initialization", "initialize_lines", "ctor_lines"]
+    _joined = {"body_include_files": ("include_files", "body_include_files"), "link_libraries": ("link_libraries", "link_libraries")}
+    if len(_fn) != 1:
+        results.append(dict(name="C14/static:slot_wiring", kind="static", status="undecided", detail="executor._write_cpp_files not found (refactored?)"))
+    else:
+        _assign = {}   # slot -> [value expr]
+        _locals = {}   # local name -> [value expr]
+        for n in _ast.walk(_fn[0]):
+            if isinstance(n, _ast.Assign) and len(n.targets) == 1:
+                t = n.targets[0]
+                if isinstance(t, _ast.Subscript) and isinstance(t.value, _ast.Name) and t.value.id == "info" and isinstance(t.slice, _ast.Constant):
+                    _assign.setdefault(t.slice.value, []).append(n.value)
+                elif isinstance(t, _ast.Name):
+                    _locals.setdefault(t.id, []).append(n.value)
+
+        def _is_self_attr(e, name):
+            return isinstance(e, _ast.Attribute) and isinstance(e.value, _ast.Name) and e.value.id == "self" and e.attr == name
+
+        def _resolve(e):
+            return _locals[e.id][0] if isinstance(e, _ast.Name) and len(_locals.get(e.id, [])) == 1 else e
+        _bad, _und = [], []
+        for sl in _direct + list(_joined):
+            vs = _assign.get(sl, [])
+            if len(vs) != 1:
+                _und.append("info[%r] is assigned %d times" % (sl, len(vs)))
+                continue
+            v = _resolve(vs[0])
+            if sl in _direct:
+                if _is_self_attr(v, sl):
+                    continue
+                if isinstance(v, _ast.Attribute) and isinstance(v.value, _ast.Name) and v.value.id == "self" and v.attr in _direct + list(_joined):
+                    _bad.append("template slot %r is fed from self.%s (documented: the %s lines of the inject_code blocks)" % (sl, v.attr, sl))
+                else:
+                    _und.append("info[%r] = %s" % (sl, _ast.unparse(v)))
+            else:
+                vis, acc = _joined[sl]
+                ok = (isinstance(v, _ast.BinOp) and isinstance(v.op, _ast.Add) and isinstance(v.left, _ast.Call) and isinstance(v.left.func, _ast.Attribute)
+                      and v.left.func.attr == vis and _is_self_attr(v.right, acc))
+                if ok:
+                    continue
+                if isinstance(v, _ast.BinOp) and isinstance(v.right, _ast.Attribute) and getattr(v.right.value, "id", None) == "self" and v.right.attr != acc:
+                    _bad.append("template slot %r appends self.%s (documented: the %s of the inject_code blocks after the translator's own)" % (sl, v.right.attr, acc))
+                else:
+                    _und.append("info[%r] = %s" % (sl, _ast.unparse(v)))
+        results.append(dict(name="C14/static:slot_wiring", kind="static", status="violation" if _bad else "undecided" if _und else "ok",
+                            detail="; ".join(_bad or _und), input=_bad or None))
+except Exception as e:  # noqa
+    results.append(dict(name="C14/static:slot_wiring", kind="static", status="undecided", detail="static check crashed: %r" % (e,)))
+
+
 # ---- bounded stand-in: real templates through the real jinja2 --------------------------------------------------
 import render as R2
 tier = os.environ.get("VERIF_TIER", "quick")
@@ -66,4 +123,57 @@ try:
                         evaluations=evals, distinct=evals, exhaustive=False, detail=bad[0] if bad else "", input=bad[1] if bad else None))
 except Exception as e:  # noqa
     results.append(dict(name="C14/bounded:render_special_characters", kind="bounded", status="undecided", detail="crashed: %r" % (e,)))
+
+# ---- bounded stand-in, end to end: inject_code metadata through the REAL executor (apply_ast_transformations + write_cpp_files) ----------
+try:
+    import logging, re, tempfile
+    from pathlib import Path
+    logging.disable(logging.CRITICAL)
+    from func_adl import EventDataset
+    from func_adl_xAOD.atlas.xaod.executor import atlas_xaod_executor
+
+    class _DS(EventDataset):
+        async def execute_result_async(self, a, title):
+            return a
+    FIELDS = ["body_includes", "header_includes", "private_members", "instance_initialization", "ctor_lines", "initialize_lines", "link_libraries"]
+    PLACE = {"body_includes": ("query.cxx", r"#include <analysis/query.h>", r"query\s*::\s*query\s*\("),
+             "header_includes": ("query.h", r"#include <AnaAlgorithm/AnaAlgorithm.h>", r"class\s+query"),
+             "private_members": ("query.h", r"private:", r"\};"),
+             "instance_initialization": ("query.cxx", r"EL::AnaAlgorithm\s*\(name,\s*pSvcLocator\)", r"\n\{"),
+             "ctor_lines": ("query.cxx", r"EL::AnaAlgorithm\s*\(name,\s*pSvcLocator\)[^{]*\{", r"StatusCode\s+query\s*::\s*initialize"),
+             "initialize_lines": ("query.cxx", r"StatusCode\s+query\s*::\s*initialize\s*\(\)\s*\{", r"StatusCode\s+query\s*::\s*execute"),
+             "link_libraries": ("package_CMakeLists.txt", r"LINK_LIBRARIES\s+AnaAlgorithmLib", r"\)")}
+    blocks = [dict(metadata_type="inject_code", name="b%d" % k, **{f: ["%s_b%d_l%d" % (f, k, i) for i in range(2)] for f in FIELDS}) for k in range(2)]
+    ds = _DS()
+    for b in blocks + [blocks[0]]:   # the repeated identical block counts once
+        ds = ds.MetaData(b)
+    a = ds.Select("lambda e: e.Jets('AntiKt4EMTopoJets').Select(lambda j: j.pt())").value()
+    exe = atlas_xaod_executor()
+    with tempfile.TemporaryDirectory() as d:
+        exe.write_cpp_files(exe.apply_ast_transformations(a), Path(d))
+        files = {f.name: f.read_text() for f in Path(d).iterdir() if f.is_file()}
+    bad2 = None
+    ev2 = 0
+    for f in FIELDS:
+        fname, after, before = PLACE[f]
+        want = [ln for b in blocks for ln in b[f]]
+        text = files[fname]
+        ev2 += 1
+        msg = R2.check_slot(text, want, "inject_code field %s in %s" % (f, fname))
+        if not msg:
+            m1 = re.search(after, text)
+            first = text.find(want[0])
+            m2 = re.compile(before).search(text, text.find(want[-1]))
+            if not m1 or first < m1.end() or not m2:
+                msg = "inject_code field %s: its lines are not in the documented place of %s" % (f, fname)
+        for other, txt in files.items():
+            if other != fname and any(ln in txt for ln in want):
+                msg = msg or "inject_code field %s: a line also appears in %s" % (f, other)
+        if msg and not bad2:
+            bad2 = msg
+    results.append(dict(name="C14/bounded:inject_code_end_to_end", kind="bounded", status="violation" if bad2 else "ok", detail=bad2 or "",
+                        bound="two blocks x seven fields x two lines (+ one repeated identical block) through the real ATLAS executor", evaluations=ev2, distinct=ev2,
+                        exhaustive=False, input=bad2))
+except Exception as e:  # noqa
+    results.append(dict(name="C14/bounded:inject_code_end_to_end", kind="bounded", status="undecided", detail="crashed: %r" % (e,)))
 print(json.dumps(dict(results=results)))
